@@ -605,6 +605,21 @@ def history_scenarios(style):
                {'op': 'env', 'what': 'unplug', 'port': pa}, look(pa, 'port', pa),
                {'op': 'env', 'what': 'replug', 'port': pa}, look(pa.lower(), 'port', pa)]
         yield {'prop': PROP, 'world': {'boards': boards}, 'ops': mk_ops(ops), 'faults': {}, 'snap_dev': False}
+    # H4: an earlier board that carries the name only in its description (no serial tag), a later board whose
+    #     serial tag merely starts with that name: every criterion is tried port by port, so the earlier wins
+    if style in ('mac', 'linux', 'nameonly'):
+        for f, lay in (('ebb_serial.find_named_ebb', 'legacy'), ('ebb3_serial.find_named', 'ebb3')):
+            first = {'port': pa, 'kind': 'ebb', 'fw': [3, 0, 2], 'nick': 'East', 'style': 'nameonly', 'loc': '1-1'}
+            later = ebb(pb, 'Eastwing', '1-2')
+            ops = []
+            for x in ('East', 'east', 'EAST'):
+                o = lcall(f, [x])
+                o['look'] = {'kind': 'name', 'target': pa}
+                ops.append(o)
+            o = lcall(f, ['Eastwing'])
+            o['look'] = {'kind': 'tag', 'target': pb}
+            ops.append(o)
+            yield {'prop': PROP, 'world': {'boards': [first, later]}, 'ops': mk_ops(ops), 'faults': {}, 'snap_dev': False}
     # H3: end to end on one object: connect by name, disconnect, names swap, connect by the same name again
     boards = [ebb(pa, 'Alpha_1', '1-1'), ebb(pb, 'Beta_22', '1-2')]
     c1 = call(0, 'connect', ['Alpha_1'])
